@@ -19,6 +19,7 @@ import Driver.LinuxParse
 import Driver.Snapshots
 import Driver.Synthetic
 import Driver.Tools
+import Driver.SetStage
 open Driver
 
 def main (args : List String) : IO UInt32 := do
@@ -87,6 +88,9 @@ def main (args : List String) : IO UInt32 := do
     return 0
   | ["synthetic"] =>
     lineLoop stdin stdout () SyntheticEng.step
+    return 0
+  | ["setstage"] =>
+    lineLoop stdin stdout ({} : SetStageEng.St) SetStageEng.step
     return 0
   | ["tools"] =>
     lineLoop stdin stdout ToolsEng.init ToolsEng.step
